@@ -5,7 +5,7 @@ V = os.path.dirname(os.path.dirname(os.path.abspath(__file__)))
 rows = []
 for p in sorted(glob.glob(os.path.join(V, "benign", "*", "meta.json"))):
     m = json.load(open(p))
-    rows.append("| `%s` | %s | %s | %s |" % (os.path.basename(os.path.dirname(p)), m["change"].replace("|", "/"), " ".join(m["checks_run"]), "silent" if m["result"].startswith("all exit 0") else m["result"]))
+    rows.append("| `%s` | %s | %s | %s |" % (os.path.basename(os.path.dirname(p)), m["change"].replace("|", "/"), " ".join(m["checks_run"]), ("silent" if m["result"].startswith("all exit 0") else m["result"]) + (" (at its base commit; no longer applies to HEAD)" if m.get("status") == "stale" else "")))
 block = "| kept change (benign/…) | what it changes | checks run (quick) | result |\n|---|---|---|---|\n" + "\n".join(rows) + "\n"
 p = os.path.join(V, "DESIGN.md")
 s = open(p).read()
